@@ -53,15 +53,20 @@ func NewWebsocketConnection(conn *websocket.Conn, remoteSki string) *WebsocketCo
 }
 
 // sets the error message for the closed connection
-func (w *WebsocketConnection) setConnClosedError(err error) {
+//
+// returns true if this call marked the connection as closed, false if it was closed already
+func (w *WebsocketConnection) setConnClosedError(err error) bool {
 	w.muxConnClosed.Lock()
 	defer w.muxConnClosed.Unlock()
 
+	wasClosed := w.connectionClosed
 	w.connectionClosed = true
 
 	if err != nil {
 		w.connectionClosedError = err
 	}
+
+	return !wasClosed
 }
 
 func (w *WebsocketConnection) connClosedError() error {
@@ -142,8 +147,10 @@ func (w *WebsocketConnection) handlePing() {
 
 func (w *WebsocketConnection) closeWithError(err error, reason string) {
 	logging.Log().Debug(w.remoteSki, reason, err)
-	w.setConnClosedError(err)
-	w.dataProcessing.ReportConnectionError(err)
+	// only the first cause of the closure is reported, and nothing after a deliberate local close
+	if w.setConnClosedError(err) {
+		w.dataProcessing.ReportConnectionError(err)
+	}
 }
 
 // readShipPump checks for messages from the websocket connection
@@ -169,9 +176,12 @@ func (w *WebsocketConnection) readShipPump() {
 
 			if err != nil {
 				logging.Log().Debug(w.remoteSki, "websocket read error: ", err)
+				// only the first cause of the closure is reported
+				isFirst := w.setConnClosedError(err)
 				w.close()
-				w.setConnClosedError(err)
-				w.dataProcessing.ReportConnectionError(err)
+				if isFirst {
+					w.dataProcessing.ReportConnectionError(err)
+				}
 				return
 			}
 
@@ -227,10 +237,8 @@ func (w *WebsocketConnection) checkWebsocketMessage(msgType int, data []byte) er
 // close the current websocket connection
 func (w *WebsocketConnection) close() {
 	w.shutdownOnce.Do(func() {
-		if w.isConnClosed() {
-			return
-		}
-
+		// also when the connection was already marked closed by a write error:
+		// the pumps still have to be released and the socket has to be closed
 		w.setConnClosedError(nil)
 
 		close(w.closeChannel)
